@@ -108,6 +108,10 @@ func (b *schemaBuilder) schemaForType(typ reflect.Type) (Schema, error) {
 }
 
 func nullableSchema(s Schema) Schema {
+	if s.Type == "null" {
+		// null is already nullable; [null, null] is not a valid union
+		return s
+	}
 	return Schema{
 		Type: "union",
 		Union: []Schema{
